@@ -31,11 +31,17 @@ pub struct IterCfg {
     pub capacity: Option<usize>,
     pub max_size: MaxSz,
     pub eof_end: bool,
+    /// how the configuration calls are made: `order % 6` = permutation of (allow_errors, set_max_allowable_tag_size,
+    /// emit_master_end_when_eof); `order >= 6` = every call is made even when it only restates the default
+    pub order: u8,
+    /// a different configuration (tolerated mask, index into `RECONF_SIZES`, EOF closing) applied first and then
+    /// overwritten by the real one: the final state is the same, the call history is not
+    pub decoy: Option<(u8, u8, bool)>,
 }
 
 impl Default for IterCfg {
     fn default() -> Self {
-        IterCfg { allow: 0, buffered: vec![], capacity: None, max_size: MaxSz::Default, eof_end: true }
+        IterCfg { allow: 0, buffered: vec![], capacity: None, max_size: MaxSz::Default, eof_end: true, order: 0, decoy: None }
     }
 }
 
@@ -47,6 +53,8 @@ impl IterCfg {
             "capacity": self.capacity,
             "max_size": match &self.max_size { MaxSz::Default => json!("default"), MaxSz::Unlimited => json!("unlimited"), MaxSz::Limit(n) => json!(n) },
             "eof_end": self.eof_end,
+            "order": self.order,
+            "decoy": self.decoy.map(|(m, k, e)| json!([m, k, e])),
         })
     }
     pub fn from_j(j: &J) -> Result<IterCfg, String> {
@@ -61,6 +69,8 @@ impl IterCfg {
                 _ => return Err("cfg.max_size".into()),
             },
             eof_end: j.get("eof_end").and_then(|v| v.as_bool()).ok_or("cfg.eof_end")?,
+            order: j.get("order").and_then(|v| v.as_u64()).unwrap_or(0) as u8,
+            decoy: j.get("decoy").and_then(|v| v.as_array()).map(|a| (a[0].as_u64().unwrap_or(0) as u8, a[1].as_u64().unwrap_or(0) as u8, a[2].as_bool().unwrap_or(true))),
         })
     }
 }
@@ -299,17 +309,49 @@ fn allow_list(cfg: &IterCfg) -> Vec<AllowableErrors> {
 }
 
 fn configure<R: std::io::Read, T: Spec>(it: &mut TagIterator<R, T>, cfg: &IterCfg) {
-    let allow = allow_list(cfg);
-    if !allow.is_empty() {
-        it.allow_errors(&allow);
+    const PERMS: [[u8; 3]; 6] = [[0, 1, 2], [0, 2, 1], [1, 0, 2], [1, 2, 0], [2, 0, 1], [2, 1, 0]];
+    let perm = PERMS[(cfg.order % 6) as usize];
+    let always = cfg.order >= 6 || cfg.decoy.is_some();
+    if let Some((m, k, e)) = cfg.decoy {
+        for step in perm {
+            match step {
+                0 => it.allow_errors(&allow_list(&IterCfg { allow: m & 7, ..Default::default() })),
+                // the library offers no way back to its default limit, so that one is only decoyed when a limit is set afterwards
+                1 if cfg.max_size != MaxSz::Default => it.set_max_allowable_tag_size(RECONF_SIZES[(k & 7) as usize]),
+                1 => {}
+                _ => it.emit_master_end_when_eof(e),
+            }
+        }
     }
-    match cfg.max_size {
-        MaxSz::Default => {}
-        MaxSz::Unlimited => it.set_max_allowable_tag_size(None),
-        MaxSz::Limit(n) => it.set_max_allowable_tag_size(Some(n)),
+    for step in perm {
+        match step {
+            0 => {
+                let allow = allow_list(cfg);
+                if !allow.is_empty() || always {
+                    it.allow_errors(&allow);
+                }
+            }
+            1 => match cfg.max_size {
+                MaxSz::Default => {}
+                MaxSz::Unlimited => it.set_max_allowable_tag_size(None),
+                MaxSz::Limit(n) => it.set_max_allowable_tag_size(Some(n)),
+            },
+            _ => {
+                if !cfg.eof_end || always {
+                    it.emit_master_end_when_eof(cfg.eof_end);
+                }
+            }
+        }
     }
-    if !cfg.eof_end {
-        it.emit_master_end_when_eof(false);
+}
+
+/// Draws a configuration call history (order, redundant calls, an overwritten earlier configuration).
+pub fn gen_cfg_history(rng: &mut crate::rng::Rng, cfg: &mut IterCfg) {
+    if rng.chance(1, 2) {
+        cfg.order = rng.below(12) as u8;
+    }
+    if rng.chance(1, 6) {
+        cfg.decoy = Some((rng.below(8) as u8, rng.below(8) as u8, rng.chance(1, 2)));
     }
 }
 
